@@ -41,6 +41,36 @@ enum StageSpec {
     Probe,
     /// plugins_process_msgs with the real export plugin configured with lifecyclesToKeep and the lifecycle read handle
     Export,
+    /// plugins_process_msgs with a chain of plugins that REJECT messages (scripted by index, the real FileTransfer plugin
+    /// with keepFLDA:false on FLDA messages) and plugins that only rewrite; a non-empty pacing script adds a stalling plugin
+    Chain(Vec<Plug>, Vec<u8>),
+}
+
+/// one plugin of a chain
+#[derive(Clone, Debug, PartialEq)]
+enum Plug {
+    /// scripted: process_msg returns false for the messages with these indices
+    Reject(Vec<u32>),
+    /// rewrites the text (appends "m<number of messages seen>"), accepts everything
+    Mark,
+    /// the real FileTransfer plugin: (keepFLDA, restricted to apid FTA / ctid FTC)
+    Ft(bool, bool),
+}
+impl Plug {
+    fn to_json(&self) -> Value {
+        match self {
+            Plug::Reject(v) => json!({"p": "reject", "idx": v}),
+            Plug::Mark => json!({"p": "mark"}),
+            Plug::Ft(k, r) => json!({"p": "ft", "keep": k, "restrict": r}),
+        }
+    }
+    fn from_json(v: &Value) -> Plug {
+        match v["p"].as_str().unwrap() {
+            "reject" => Plug::Reject(serde_json::from_value(v["idx"].clone()).unwrap()),
+            "mark" => Plug::Mark,
+            _ => Plug::Ft(v["keep"].as_bool().unwrap(), v["restrict"].as_bool().unwrap()),
+        }
+    }
 }
 
 impl StageSpec {
@@ -52,6 +82,7 @@ impl StageSpec {
             StageSpec::Filter(f) => json!({"k": "filter", "filters": f}),
             StageSpec::Probe => json!({"k": "probe"}),
             StageSpec::Export => json!({"k": "export"}),
+            StageSpec::Chain(c, st) => json!({"k": "chain", "plugins": c.iter().map(|p| p.to_json()).collect::<Vec<_>>(), "stall": st}),
         }
     }
     fn from_json(v: &Value) -> StageSpec {
@@ -61,6 +92,7 @@ impl StageSpec {
             "sort" => StageSpec::Sort(v["win"].as_u64().unwrap() as u8, v["delay"].as_u64().unwrap(), v["live"].as_bool().unwrap()),
             "probe" => StageSpec::Probe,
             "export" => StageSpec::Export,
+            "chain" => StageSpec::Chain(v["plugins"].as_array().unwrap().iter().map(Plug::from_json).collect(), serde_json::from_value(v["stall"].clone()).unwrap_or_default()),
             _ => StageSpec::Filter(v["filters"].as_array().unwrap().iter().map(|s| s.as_str().unwrap().to_string()).collect()),
         }
     }
@@ -86,6 +118,13 @@ impl StageSpec {
             StageSpec::Filter(_) => "F",
             StageSpec::Probe => "R",
             StageSpec::Export => "X",
+            StageSpec::Chain(_, st) => {
+                if st.is_empty() {
+                    "C"
+                } else {
+                    "Cstall"
+                }
+            }
         }
     }
 }
@@ -125,15 +164,111 @@ fn pace(code: u8) {
 }
 
 fn build_msg(i: usize, s: &MsgSpec) -> DltMessage {
+    build_ft(i, s, 100 * s.0 as u32, 1, 1)
+}
+
+// verbose arguments (little endian, as the standard header of dltgen::plain_msg says)
+fn arg_str(p: &mut Vec<u8>, s: &str) {
+    p.extend_from_slice(&0x200u32.to_le_bytes());
+    p.extend_from_slice(&((s.len() + 1) as u16).to_le_bytes());
+    p.extend_from_slice(s.as_bytes());
+    p.push(0);
+}
+fn arg_u32(p: &mut Vec<u8>, v: u32) {
+    p.extend_from_slice(&0x43u32.to_le_bytes());
+    p.extend_from_slice(&v.to_le_bytes());
+}
+fn arg_u16(p: &mut Vec<u8>, v: u16) {
+    p.extend_from_slice(&0x42u32.to_le_bytes());
+    p.extend_from_slice(&v.to_le_bytes());
+}
+fn arg_raw(p: &mut Vec<u8>, d: &[u8]) {
+    p.extend_from_slice(&0x400u32.to_le_bytes());
+    p.extend_from_slice(&(d.len() as u16).to_le_bytes());
+    p.extend_from_slice(d);
+}
+
+/// kinds: 0 log / 1 control request / 2 no extended header / 3 FLST / 4 FLDA / 5 FLFI (apid FTA, ctid FTC) /
+/// 6 FLDA of another application (APP1/CTX1) / 7 looks like an FLDA but ends with "FLDX" / 8 starts and ends with "FLDA"
+/// but has 4 arguments
+fn build_ft(i: usize, s: &MsgSpec, serial: u32, pkg: u32, nr_pkgs: u32) -> DltMessage {
     let m = dltgen::plain_msg(i as u32, s.0, s.1, s.2);
+    let mut p = vec![];
     match s.3 {
         0 => {
             let apid = [b'A', b'P', b'0' + (i % 3) as u8, 0];
             dltgen::with_ext(m, 0x41, 0, &apid, b"CTX\0")
         }
         1 => dltgen::with_ext(m, (3 << 1) | (1 << 4), 0, b"DA1\0", b"DC1\0"),
-        _ => m,
+        2 => m,
+        3 => {
+            arg_str(&mut p, "FLST");
+            arg_u32(&mut p, serial);
+            arg_str(&mut p, "f.bin");
+            arg_u32(&mut p, nr_pkgs * 4);
+            arg_str(&mut p, "date");
+            arg_u32(&mut p, nr_pkgs);
+            arg_u16(&mut p, 4);
+            arg_str(&mut p, "FLST");
+            let mut m = dltgen::with_ext(m, 0x41, 8, b"FTA\0", b"FTC\0");
+            m.payload = p;
+            m
+        }
+        5 => {
+            arg_str(&mut p, "FLFI");
+            arg_u32(&mut p, serial);
+            arg_str(&mut p, "FLFI");
+            let mut m = dltgen::with_ext(m, 0x41, 3, b"FTA\0", b"FTC\0");
+            m.payload = p;
+            m
+        }
+        k => {
+            arg_str(&mut p, "FLDA");
+            arg_u32(&mut p, serial);
+            if k != 8 {
+                arg_u32(&mut p, pkg);
+            }
+            arg_raw(&mut p, &[i as u8, 1, 2, 3]);
+            arg_str(&mut p, if k == 7 { "FLDX" } else { "FLDA" });
+            let (a, c): (&[u8; 4], &[u8; 4]) = if k == 6 { (b"APP1", b"CTX1") } else { (b"FTA\0", b"FTC\0") };
+            let mut m = dltgen::with_ext(m, 0x41, if k == 8 { 4 } else { 5 }, a, c);
+            m.payload = p;
+            m
+        }
     }
+}
+
+/// the messages of a stream; the file transfer messages of an ecu get the serial of its last FLST (one per FLST), the FLDA
+/// messages consecutive package numbers, the FLST announces the number of FLDA messages that follow it
+fn build_stream(msgs: &[MsgSpec]) -> Vec<DltMessage> {
+    let mut st: std::collections::BTreeMap<u8, (u32, u32)> = Default::default(); // ecu -> (serial, next package)
+    msgs.iter()
+        .enumerate()
+        .map(|(i, m)| {
+            if m.3 < 3 {
+                return build_ft(i, m, 0, 0, 0);
+            }
+            let e = st.entry(m.0).or_insert((100 * m.0 as u32, 1));
+            match m.3 {
+                3 => {
+                    *e = (e.0 + 1, 1);
+                    let n = msgs[i + 1..].iter().filter(|x| x.0 == m.0).take_while(|x| x.3 != 3 && x.3 != 5).filter(|x| x.3 == 4).count() as u32;
+                    build_ft(i, m, e.0, 0, n.max(1))
+                }
+                4 => {
+                    e.1 += 1;
+                    build_ft(i, m, e.0, e.1 - 1, 0)
+                }
+                _ => build_ft(i, m, e.0, 1, 0),
+            }
+        })
+        .collect()
+}
+
+/// the file-transfer data packages the FileTransfer plugin is specified to drop with keepFLDA:false (verbose log info message
+/// with 5 arguments that starts and ends with "FLDA", of its apid/ctid when it is restricted to one)
+fn spec_ft_rejects(kind: u8, keep: bool, restrict: bool) -> bool {
+    !keep && (kind == 4 || (kind == 6 && !restrict))
 }
 
 // ------------------------------------------------------------------ trivial plugins
@@ -179,6 +314,142 @@ impl Plugin for Numbering {
         self.n += 1;
         true
     }
+}
+
+/// rejects the messages with the scripted indices
+struct RejectIdx {
+    idx: Vec<u32>,
+    state: Arc<RwLock<PluginState>>,
+}
+impl Plugin for RejectIdx {
+    fn name(&self) -> &str {
+        "reject_idx"
+    }
+    fn enabled(&self) -> bool {
+        true
+    }
+    fn state(&self) -> Arc<RwLock<PluginState>> {
+        self.state.clone()
+    }
+    fn set_lifecycle_read_handle(&mut self, _lcs_r: &adlt::lifecycle::LcsRType) {}
+    fn sync_all(&mut self) {}
+    fn process_msg(&mut self, msg: &mut DltMessage) -> bool {
+        !self.idx.contains(&msg.index)
+    }
+}
+/// rewrites the text: any message a plugin in front of it swallowed, or that it did not get, shifts the numbers
+struct MarkSeen {
+    n: u32,
+    state: Arc<RwLock<PluginState>>,
+}
+impl Plugin for MarkSeen {
+    fn name(&self) -> &str {
+        "mark_seen"
+    }
+    fn enabled(&self) -> bool {
+        true
+    }
+    fn state(&self) -> Arc<RwLock<PluginState>> {
+        self.state.clone()
+    }
+    fn set_lifecycle_read_handle(&mut self, _lcs_r: &adlt::lifecycle::LcsRType) {}
+    fn sync_all(&mut self) {}
+    fn process_msg(&mut self, msg: &mut DltMessage) -> bool {
+        msg.payload_text = Some(format!("{}m{}", msg.payload_text.clone().unwrap_or_default(), self.n));
+        self.n += 1;
+        true
+    }
+}
+/// what a plugin was asked and what it answered: (message index, verdict of process_msg), in the order of the calls
+type PlugLog = Arc<Mutex<Vec<(u32, bool)>>>;
+/// wraps a plugin of a chain and records every call of process_msg
+struct Counted {
+    inner: Box<dyn Plugin + Send>,
+    log: PlugLog,
+}
+impl Plugin for Counted {
+    fn name(&self) -> &str {
+        self.inner.name()
+    }
+    fn enabled(&self) -> bool {
+        self.inner.enabled()
+    }
+    fn state(&self) -> Arc<RwLock<PluginState>> {
+        self.inner.state()
+    }
+    fn set_lifecycle_read_handle(&mut self, lcs_r: &adlt::lifecycle::LcsRType) {
+        self.inner.set_lifecycle_read_handle(lcs_r)
+    }
+    fn sync_all(&mut self) {
+        self.inner.sync_all()
+    }
+    fn process_msg(&mut self, msg: &mut DltMessage) -> bool {
+        let idx = msg.index;
+        let r = self.inner.process_msg(msg);
+        self.log.lock().unwrap().push((idx, r));
+        r
+    }
+}
+
+/// number of plugins of a stage the specification (and the model) knows about (the stalling plugin is pacing only)
+fn n_plugins(st: &StageSpec) -> usize {
+    match st {
+        StageSpec::Plugins(k, _) => {
+            if *k >= 2 {
+                2
+            } else {
+                0
+            }
+        }
+        StageSpec::Probe | StageSpec::Export => 1,
+        StageSpec::Chain(c, _) => c.len(),
+        _ => 0,
+    }
+}
+
+/// the plugins of a Plugins / Chain stage, each wrapped in a recorder; `stall`: the pacing plugin in front (not recorded)
+fn make_plugins(st: &StageSpec, paced: bool, logs: &[PlugLog]) -> (Vec<Box<dyn Plugin + Send>>, usize) {
+    let state = || Arc::new(RwLock::new(PluginState::default()));
+    let mut plugins: Vec<Box<dyn Plugin + Send>> = vec![];
+    let mut inner: Vec<Box<dyn Plugin + Send>> = vec![];
+    let stall = match st {
+        StageSpec::Plugins(_, s) | StageSpec::Chain(_, s) if paced => s.clone(),
+        _ => vec![],
+    };
+    let n_stall = if stall.is_empty() { 0 } else { 1 };
+    if !stall.is_empty() {
+        plugins.push(Box::new(Stall { script: stall, i: 0, state: state() }));
+    }
+    match st {
+        StageSpec::Plugins(k, _) if *k >= 2 => {
+            inner.push(Box::new(DropEvery { k: *k, state: state() }));
+            inner.push(Box::new(Numbering { n: 0, state: state() }));
+        }
+        StageSpec::Chain(c, _) => {
+            for pl in c {
+                inner.push(match pl {
+                    Plug::Reject(idx) => Box::new(RejectIdx { idx: idx.clone(), state: state() }),
+                    Plug::Mark => Box::new(MarkSeen { n: 0, state: state() }),
+                    Plug::Ft(keep, restrict) => {
+                        let mut cfg = json!({"name": "FileTransfer", "allowSave": false, "keepFLDA": keep});
+                        if *restrict {
+                            cfg["apid"] = json!("FTA");
+                            cfg["ctid"] = json!("FTC");
+                        }
+                        Box::new(adlt::plugins::file_transfer::FileTransferPlugin::from_json(cfg.as_object().unwrap()).expect("file transfer plugin"))
+                    }
+                });
+            }
+        }
+        _ => {}
+    }
+    for (j, pl) in inner.into_iter().enumerate() {
+        match logs.get(j) {
+            Some(l) => plugins.push(Box::new(Counted { inner: pl, log: l.clone() })),
+            None => plugins.push(pl),
+        }
+    }
+    (plugins, n_stall)
 }
 
 /// a downstream stage that reads the lifecycle table out of band: looks the lifecycle of every message up when it gets it
@@ -263,6 +534,10 @@ struct RunOut {
     hung: Vec<usize>, // thread numbers (0 = producer, i+1 = stage i) not finished within the timeout
     full_hits: usize, // sends that took the Full branch of the helper (measured: >= 9 ms)
     wall_ms: u128,
+    /// per stage, per plugin of its chain (in the order of the chain): the calls of process_msg (message index, verdict)
+    plog: Vec<Vec<Vec<(u32, bool)>>>,
+    /// keys of the shared lifecycle table that did not have exactly one value when the consumer looked: (id, number of values)
+    bag_defects: Vec<(u32, usize)>,
 }
 
 struct DoneGuard(SyncSender<usize>, usize);
@@ -274,6 +549,28 @@ impl Drop for DoneGuard {
 
 fn seen(m: &DltMessage) -> Seen {
     (m.index, m.lifecycle, u32::from_be_bytes([m.ecu.as_buf()[0], m.ecu.as_buf()[1], m.ecu.as_buf()[2], m.ecu.as_buf()[3]]), m.reception_time_us, m.timestamp_dms, m.payload_text.clone().unwrap_or_default())
+}
+
+/// the keys of the table that do not have exactly one value (evmap keeps a bag of values per key; the lifecycle stage only
+/// ever replaces the value of a key or removes the key, readers like remote.rs `b.get_one().unwrap()` rely on it)
+fn bag_defects(lcs_r: &LcsR) -> Vec<(u32, usize)> {
+    let mut v = vec![];
+    if let Some(r) = lcs_r.read() {
+        for (id, bag) in &r {
+            if bag.len() != 1 {
+                v.push((*id, bag.len()));
+            }
+        }
+    }
+    v.sort();
+    v
+}
+fn note_bag_defects(lcs_r: &LcsR, into: &mut Vec<(u32, usize)>) {
+    for d in bag_defects(lcs_r) {
+        if !into.contains(&d) {
+            into.push(d);
+        }
+    }
 }
 
 fn read_table(lcs_r: &LcsR) -> Vec<(u32, u32, u32, u64, u64, u32)> {
@@ -307,7 +604,8 @@ fn run_real(p: &Pipeline, s: &Script, hang_timeout: Duration) -> RunOut {
     // channels
     let (tx0, mut rx_prev): (SyncSender<DltMessage>, Receiver<DltMessage>) = sync_channel(s.caps[0]);
     // producer, as in convert.rs: helper, break on Err, drop the sender at the end
-    let msgs: Vec<DltMessage> = p.msgs.iter().enumerate().map(|(i, m)| build_msg(i, m)).collect();
+    let msgs: Vec<DltMessage> = build_stream(&p.msgs);
+    let plogs: Vec<Vec<PlugLog>> = p.stages.iter().map(|st| (0..n_plugins(st)).map(|_| Arc::new(Mutex::new(vec![]))).collect()).collect();
     let prod_script = s.prod.clone();
     let g = DoneGuard(done_tx.clone(), 0);
     let fh = full_hits.clone();
@@ -381,22 +679,14 @@ fn run_real(p: &Pipeline, s: &Script, hang_timeout: Duration) -> RunOut {
                     parse_lifecycles_buffered_from_stream(w, rx, outflow!())
                 })));
             }
-            StageSpec::Plugins(k, stall) => {
-                let k = *k;
-                let stall = if paced { stall.clone() } else { vec![] };
-                let stall_on = !stall.is_empty();
+            StageSpec::Plugins(..) | StageSpec::Chain(..) => {
+                let st = st.clone();
+                let logs = plogs[i].clone();
                 handles.push(H::Other(std::thread::spawn(move || {
                     let _g = g;
-                    let mut plugins: Vec<Box<dyn Plugin + Send>> = vec![];
-                    if !stall.is_empty() {
-                        plugins.push(Box::new(Stall { script: stall, i: 0, state: Arc::new(RwLock::new(PluginState::default())) }));
-                    }
-                    if k >= 2 {
-                        plugins.push(Box::new(DropEvery { k, state: Arc::new(RwLock::new(PluginState::default())) }));
-                        plugins.push(Box::new(Numbering { n: 0, state: Arc::new(RwLock::new(PluginState::default())) }));
-                    }
+                    let (plugins, n_stall) = make_plugins(&st, paced, &logs);
                     match plugins_process_msgs(rx, outflow!(), plugins) {
-                        Ok(p) => StageRes::Plugins(true, p.len() - if stall_on { 1 } else { 0 }),
+                        Ok(p) => StageRes::Plugins(true, p.len() - n_stall),
                         Err(_) => StageRes::Plugins(false, 0),
                     }
                 })));
@@ -412,16 +702,18 @@ fn run_real(p: &Pipeline, s: &Script, hang_timeout: Duration) -> RunOut {
             StageSpec::Probe | StageSpec::Export => {
                 let r = lcs_r.clone();
                 let export = *st == StageSpec::Export;
+                let log = plogs[i][0].clone();
                 handles.push(H::Other(std::thread::spawn(move || {
                     let _g = g;
                     let dir = tempfile::tempdir().expect("tempdir");
-                    let mut plugin: Box<dyn Plugin + Send> = if export {
+                    let plugin: Box<dyn Plugin + Send> = if export {
                         let cfg = json!({"name": "Export", "exportFileName": dir.path().join("out.dlt").to_string_lossy(), "filters": [],
                                          "lifecyclesToKeep": [{"ecu": "ZZZZ", "startTime": 1, "endTime": 2}]});
                         Box::new(adlt::plugins::export::ExportPlugin::from_json(cfg.as_object().unwrap()).expect("export plugin"))
                     } else {
                         Box::new(LcProbe { lcs_r: None, state: Arc::new(RwLock::new(PluginState::default())) })
                     };
+                    let mut plugin: Box<dyn Plugin + Send> = Box::new(Counted { inner: plugin, log });
                     // as remote.rs: the read handle is handed to the plugins before any message is processed
                     plugin.set_lifecycle_read_handle(&r);
                     match plugins_process_msgs(rx, outflow!(), vec![plugin]) {
@@ -448,6 +740,7 @@ fn run_real(p: &Pipeline, s: &Script, hang_timeout: Duration) -> RunOut {
     let rx = rx_prev;
     let mut delivered = vec![];
     let mut unknown_at_delivery: Vec<u32> = vec![];
+    let mut bag_defs: Vec<(u32, usize)> = vec![];
     let has_lc = p.stages.iter().any(|s| *s == StageSpec::Lc);
     let mut k = 0usize;
     loop {
@@ -464,6 +757,9 @@ fn run_real(p: &Pipeline, s: &Script, hang_timeout: Duration) -> RunOut {
                 // rule #1 of the lifecycle stage, seen from the end of the pipeline: the lifecycle of a delivered message is in the table
                 if has_lc && m.lifecycle != 0 && lcs_r.get_one(&m.lifecycle).map_or(true, |lc| lc.ecu != m.ecu) {
                     unknown_at_delivery.push(m.index);
+                }
+                if has_lc {
+                    note_bag_defects(&lcs_r, &mut bag_defs);
                 }
                 delivered.push(seen(&m));
                 k += 1;
@@ -495,6 +791,7 @@ fn run_real(p: &Pipeline, s: &Script, hang_timeout: Duration) -> RunOut {
         match h {
             H::Lc(h) => match h.join() {
                 Ok(w) => {
+                    note_bag_defects(&lcs_r, &mut bag_defs);
                     results.push(StageRes::Table(read_table(&lcs_r)));
                     drop(w);
                 }
@@ -504,7 +801,8 @@ fn run_real(p: &Pipeline, s: &Script, hang_timeout: Duration) -> RunOut {
         }
     }
     let taps = taps.iter().map(|t| t.lock().unwrap().clone()).collect();
-    RunOut { delivered, taps, results, unknown_at_delivery, producer_sent, sent_at_drop, producer_err, hung, full_hits: full_hits.load(std::sync::atomic::Ordering::Relaxed), wall_ms: t0.elapsed().as_millis() }
+    let plog = plogs.iter().map(|st| st.iter().map(|l| l.lock().unwrap().clone()).collect()).collect();
+    RunOut { plog, bag_defects: bag_defs, delivered, taps, results, unknown_at_delivery, producer_sent, sent_at_drop, producer_err, hung, full_hits: full_hits.load(std::sync::atomic::Ordering::Relaxed), wall_ms: t0.elapsed().as_millis() }
 }
 
 // ------------------------------------------------------------------ canonicalisation
@@ -541,6 +839,209 @@ fn exact_pipeline(p: &Pipeline) -> bool {
     p.stable_starts || !p.stages.iter().any(|s| matches!(s, StageSpec::Sort(_, _, true)))
 }
 
+
+// ------------------------------------------------------------------ the stages' specifications, evaluated here
+// What a stage has to forward is computed from the generated messages by the harness itself, not taken from another run of
+// the same code:  lifecycle detection forwards every message, in order (its FIFO of buffered messages keeps msg.index
+// order);  the plugins stage forwards every message except exactly those a plugin of its chain rejected, in order, and a
+// plugin is asked about a message iff no plugin in front of it rejected it;  the filter stage forwards the messages that
+// match a positive filter (or all, without positive filters) and no negative filter;  the time sort forwards a permutation
+// of its input in which a message never overtakes an earlier one that is not younger (calculated time, then index).
+
+/// ecu, apid, ctid of a generated message (dltgen::ecu, build_ft)
+fn msg_attrs(i: usize, m: &MsgSpec) -> (String, Option<&'static str>, Option<&'static str>) {
+    let ecu = format!("EC{}{}", (m.0 / 10) % 10, m.0 % 10);
+    let (a, c) = match m.3 {
+        0 => (Some(["AP0", "AP1", "AP2"][i % 3]), Some("CTX")),
+        1 => (Some("DA1"), Some("DC1")),
+        2 => (None, None),
+        6 => (Some("APP1"), Some("CTX1")),
+        _ => (Some("FTA"), Some("FTC")),
+    };
+    (ecu, a, c)
+}
+
+/// C12's clause on the filter sets used here (criteria ecu / apid / ctid; type 0 positive, 1 negative)
+fn spec_filter_passes(filters: &[String], i: usize, m: &MsgSpec) -> bool {
+    let (ecu, apid, ctid) = msg_attrs(i, m);
+    let fs: Vec<Value> = filters.iter().map(|f| serde_json::from_str(f).expect("filter json")).collect();
+    let matches = |f: &Value| -> bool {
+        f.get("ecu").and_then(|x| x.as_str()).map_or(true, |e| e == ecu)
+            && f.get("apid").and_then(|x| x.as_str()).map_or(true, |a| apid == Some(a))
+            && f.get("ctid").and_then(|x| x.as_str()).map_or(true, |c| ctid == Some(c))
+    };
+    let pos: Vec<&Value> = fs.iter().filter(|f| f["type"].as_u64() == Some(0)).collect();
+    let neg: Vec<&Value> = fs.iter().filter(|f| f["type"].as_u64() == Some(1)).collect();
+    (pos.is_empty() || pos.iter().any(|f| matches(f))) && !neg.iter().any(|f| matches(f))
+}
+
+/// a stage as a chain of rejecting plugins: per plugin the messages (of `input`) it is specified to reject; None for the sort
+fn spec_rejects(msgs: &[MsgSpec], st: &StageSpec, input: &[u32]) -> Option<Vec<Vec<u32>>> {
+    let sel = |f: &dyn Fn(u32) -> bool| -> Vec<u32> { input.iter().copied().filter(|x| f(*x)).collect() };
+    Some(match st {
+        StageSpec::Lc => vec![],
+        StageSpec::Plugins(k, _) => {
+            if *k >= 2 {
+                vec![sel(&|x| x % k == 0), vec![]]
+            } else {
+                vec![]
+            }
+        }
+        StageSpec::Probe | StageSpec::Export => vec![vec![]],
+        StageSpec::Chain(c, _) => c
+            .iter()
+            .map(|pl| match pl {
+                Plug::Reject(idx) => sel(&|x| idx.contains(&x)),
+                Plug::Mark => vec![],
+                Plug::Ft(keep, restrict) => sel(&|x| msgs.get(x as usize).map_or(false, |m| spec_ft_rejects(m.3, *keep, *restrict))),
+            })
+            .collect(),
+        StageSpec::Filter(fs) => vec![sel(&|x| msgs.get(x as usize).map_or(true, |m| !spec_filter_passes(fs, x as usize, m)))],
+        StageSpec::Sort(..) => return None,
+    })
+}
+
+/// what the chain forwards, and the messages each of its plugins is asked about
+fn spec_stage_out(rejs: &[Vec<u32>], input: &[u32]) -> (Vec<u32>, Vec<Vec<u32>>) {
+    let mut cur = input.to_vec();
+    let mut seen = vec![];
+    for r in rejs {
+        seen.push(cur.clone());
+        cur.retain(|x| !r.contains(x));
+    }
+    (cur, seen)
+}
+
+/// calculated time of the sort with a lifecycle table that never has data (every start time reads 0)
+fn spec_frozen_sort_key(m: &MsgSpec) -> u64 {
+    if m.3 == 1 {
+        m.1
+    } else {
+        (m.2 as u64 * 100).min(m.1)
+    }
+}
+
+fn short(v: &[u32]) -> String {
+    if v.len() <= 24 {
+        format!("{:?}", v)
+    } else {
+        format!("{:?}.. ({} messages)", &v[..24], v.len())
+    }
+}
+
+/// every stage of a drained run against its specification, each on the input it really got
+fn spec_oracle(p: &Pipeline, o: &RunOut, which: &str) -> Option<(String, String)> {
+    let mut input: Vec<u32> = (0..p.msgs.len() as u32).collect();
+    for (i, st) in p.stages.iter().enumerate() {
+        if matches!(o.results.get(i), Some(StageRes::Panicked) | Some(StageRes::NotJoined) | None) {
+            return None; // reported by no_stage_dies / terminates
+        }
+        let tap = &o.taps[i];
+        let at = format!("{} run, stage {} ({})", which, i, st.tag());
+        match spec_rejects(&p.msgs, st, &input) {
+            None => {
+                let (mut a, mut b) = (tap.clone(), input.clone());
+                a.sort();
+                b.sort();
+                if a != b {
+                    return Some(("sort_stage_forwards_a_permutation".into(), format!("{}: got {} forwarded {}", at, short(&input), short(tap))));
+                }
+                if let StageSpec::Sort(_, _, false) = st {
+                    let pos: std::collections::BTreeMap<u32, usize> = tap.iter().enumerate().map(|(j, x)| (*x, j)).collect();
+                    for (a, x) in input.iter().enumerate() {
+                        for y in &input[a + 1..] {
+                            if spec_frozen_sort_key(&p.msgs[*x as usize]) <= spec_frozen_sort_key(&p.msgs[*y as usize]) && pos[x] > pos[y] {
+                                return Some(("sort_stage_order".into(), format!("{}: message {} (not younger, and received first) was forwarded after message {}", at, x, y)));
+                            }
+                        }
+                    }
+                }
+            }
+            Some(rejs) => {
+                let (want, seen) = spec_stage_out(&rejs, &input);
+                let logs = &o.plog[i];
+                // the plugins stage against what its plugins really answered
+                if !logs.is_empty() {
+                    let mut exp = input.clone();
+                    for (j, log) in logs.iter().enumerate() {
+                        let asked: Vec<u32> = log.iter().map(|x| x.0).collect();
+                        if asked != exp {
+                            return Some(("plugin_asked_iff_no_plugin_before_it_rejected".into(), format!("{}: plugin {} of the chain was asked about {}, the plugins in front of it let pass {}", at, j, short(&asked), short(&exp))));
+                        }
+                        exp.retain(|x| !log.iter().any(|(ix, ok)| ix == x && !*ok));
+                    }
+                    if *tap != exp {
+                        let lost: Vec<u32> = exp.iter().copied().filter(|x| !tap.contains(x)).collect();
+                        return Some((
+                            "plugin_stage_forwards_exactly_the_unrejected_messages".into(),
+                            format!("{}: the stage got {} messages, its plugins rejected {}, it forwarded {} - not forwarded although no plugin rejected them: {}; forwarded {}", at, input.len(), input.len() - exp.len(), tap.len(), short(&lost), short(tap)),
+                        ));
+                    }
+                    for (j, log) in logs.iter().enumerate() {
+                        let rejected: Vec<u32> = log.iter().filter(|x| !x.1).map(|x| x.0).collect();
+                        let spec: Vec<u32> = seen[j].iter().copied().filter(|x| rejs[j].contains(x)).collect();
+                        if rejected != spec {
+                            return Some(("plugin_verdicts_as_specified".into(), format!("{}: plugin {} of the chain rejected {}, specified: {}", at, j, short(&rejected), short(&spec))));
+                        }
+                    }
+                }
+                if *tap != want {
+                    let lost: Vec<u32> = want.iter().copied().filter(|x| !tap.contains(x)).collect();
+                    let extra: Vec<u32> = tap.iter().copied().filter(|x| !want.contains(x)).collect();
+                    return Some((
+                        "stage_forwards_what_its_specification_says".into(),
+                        format!("{}: got {} messages, has to forward {} of them, forwarded {}; missing {}, not to be forwarded {}, order kept: {}", at, input.len(), want.len(), tap.len(), short(&lost), short(&extra), lost.is_empty() && extra.is_empty()),
+                    ));
+                }
+                let res_ok = match (&o.results[i], st) {
+                    (StageRes::Plugins(ok, n), _) => *ok && *n == n_plugins(st),
+                    (StageRes::Filter(ok, passed, filtered), _) => *ok && *passed == tap.len() && *filtered == input.len() - tap.len(),
+                    (StageRes::Table(_), _) => true,
+                    _ => false,
+                };
+                if !res_ok {
+                    return Some(("stage_result_as_specified".into(), format!("{}: returned {:?} after {} messages in, {} out", at, o.results[i], input.len(), tap.len())));
+                }
+            }
+        }
+        input = tap.clone();
+    }
+    // the texts the numbering / marking plugins write: the j-th message a plugin is asked about gets number j
+    if !p.stages.iter().any(|s| *s == StageSpec::Probe) {
+        let mut text: std::collections::BTreeMap<u32, String> = Default::default();
+        let mut input: Vec<u32> = (0..p.msgs.len() as u32).collect();
+        for (i, st) in p.stages.iter().enumerate() {
+            if let Some(rejs) = spec_rejects(&p.msgs, st, &input) {
+                let (_, seen) = spec_stage_out(&rejs, &input);
+                match st {
+                    StageSpec::Plugins(k, _) if *k >= 2 => {
+                        for (j, x) in seen[1].iter().enumerate() {
+                            text.insert(*x, format!("n{}", j));
+                        }
+                    }
+                    StageSpec::Chain(c, _) => {
+                        for (pj, pl) in c.iter().enumerate() {
+                            if *pl == Plug::Mark {
+                                for (j, x) in seen[pj].iter().enumerate() {
+                                    text.entry(*x).or_default().push_str(&format!("m{}", j));
+                                }
+                            }
+                        }
+                    }
+                    _ => {}
+                }
+            }
+            input = o.taps[i].clone();
+        }
+        for m in &o.delivered {
+            if p.msgs[m.0 as usize].3 < 3 && m.5 != text.get(&m.0).cloned().unwrap_or_default() {
+                return Some(("plugins_rewrite_as_specified".into(), format!("{} run: message {} was delivered with text {:?}, specified {:?}", which, m.0, m.5, text.get(&m.0))));
+            }
+        }
+    }
+    None
+}
+
 /// the property evaluated directly: bounded run `b` against the large-capacity reference `r`
 fn oracle(p: &Pipeline, s: &Script, r: &RunOut, b: &RunOut) -> Verdict {
     let fail = |c: &str, d: String| Verdict::Fail { clause: c.into(), detail: d };
@@ -549,6 +1050,13 @@ fn oracle(p: &Pipeline, s: &Script, r: &RunOut, b: &RunOut) -> Verdict {
     }
     if !b.hung.is_empty() {
         return fail(if s.drop_at.is_some() { "terminates_after_consumer_drop" } else { "terminates" }, format!("threads {:?} (0 = producer, i = stage i) still running after the timeout", b.hung));
+    }
+    if let Some(d) = b.bag_defects.first().or(r.bag_defects.first()) {
+        return fail("table_keys_have_exactly_one_value", format!("the shared lifecycle table had a key (lifecycle id {}) with {} values when the consumer looked (readers like remote.rs unwrap get_one())", d.0, d.1));
+    }
+    // the reference run itself against the specification of every stage (it is produced by the same code)
+    if let Some((c, d)) = spec_oracle(p, r, "large-capacity") {
+        return fail(&c, d);
     }
     let lc_alive = |o: &RunOut| !o.results.iter().zip(p.stages.iter()).any(|(x, st)| *st == StageSpec::Lc && *x == StageRes::Panicked);
     if lc_alive(b) && !b.unknown_at_delivery.is_empty() {
@@ -598,6 +1106,9 @@ fn oracle(p: &Pipeline, s: &Script, r: &RunOut, b: &RunOut) -> Verdict {
             }
             if b.producer_err || b.producer_sent != p.msgs.len() {
                 return fail("producer_completes", format!("sent {} of {} err={}", b.producer_sent, p.msgs.len(), b.producer_err));
+            }
+            if let Some((c, d)) = spec_oracle(p, b, "bounded") {
+                return fail(&c, d);
             }
         }
         Some(k) => {
@@ -721,7 +1232,12 @@ fn gen_pipeline(rng: &mut Rng, max_msgs: u64) -> Pipeline {
     }
     if rng.chance(2, 3) {
         let stall: Vec<u8> = if rng.chance(1, 3) { (0..rng.range(1, 9)).map(|_| *rng.pick(&[0u8, 0, 0, 1, 2, 3])).collect() } else { vec![] };
-        stages.push(StageSpec::Plugins(if rng.chance(1, 2) { 0 } else { rng.range(2, 5) as u32 }, stall));
+        let n = msgs.len() as u32;
+        stages.push(match rng.below(5) {
+            0 | 1 => StageSpec::Plugins(0, stall),
+            2 | 3 => StageSpec::Plugins(rng.range(2, 5) as u32, stall),
+            _ => StageSpec::Chain(vec![Plug::Reject((0..n).filter(|_| rng.chance(1, 5)).collect()), Plug::Mark, Plug::Ft(false, false)], stall),
+        });
     }
     if rng.chance(1, 2) {
         let delay = *rng.pick(&[0u64, 1_000, 100_000, 2_000_000, 20_000_000]);
@@ -731,6 +1247,93 @@ fn gen_pipeline(rng: &mut Rng, max_msgs: u64) -> Pipeline {
     if rng.chance(1, 2) || stages.is_empty() {
         stages.push(StageSpec::Filter(gen_filters(rng)));
     }
+    Pipeline { msgs, stages, tail_from: None, stable_starts: false }
+}
+
+
+/// file transfers of an ecu of the stream: FLST, 1..4 FLDA, FLFI spread over the following messages (sometimes without the
+/// FLST), and messages that only look like data packages (other application, wrong end tag, 4 arguments)
+fn add_transfers(rng: &mut Rng, msgs: &mut Vec<MsgSpec>) {
+    for _ in 0..rng.range(1, 2) {
+        if msgs.is_empty() {
+            return;
+        }
+        let at = rng.below(msgs.len() as u64) as usize;
+        let e = msgs[at].0;
+        let mut kinds: Vec<u8> = vec![3];
+        kinds.extend((0..rng.range(1, 4)).map(|_| 4u8));
+        kinds.push(5);
+        if rng.chance(1, 5) {
+            kinds.remove(0);
+        }
+        if rng.chance(1, 2) {
+            let k = *rng.pick(&[6u8, 7, 8]);
+            let pos = rng.below(kinds.len() as u64 + 1) as usize;
+            kinds.insert(pos, k);
+        }
+        let mut pos = at + 1;
+        for k in kinds {
+            let pos1 = pos.min(msgs.len());
+            let prev = msgs[pos1 - 1];
+            // timestamps of the ecu go on from its last message in front of the insertion point
+            let last = msgs[..pos1].iter().rev().find(|m| m.0 == e && m.3 != 1).copied().unwrap_or(prev);
+            let rt = prev.1 + 1 + rng.below(2000);
+            let ts = last.2.saturating_add(((rt.saturating_sub(last.1)) / 100) as u32 + 1);
+            msgs.insert(pos1, (e, rt, ts, k));
+            pos = pos1 + 1 + rng.below(3) as usize;
+        }
+    }
+}
+
+/// pipelines whose plugins stage has plugins that REJECT messages: scripted ones (first / last / middle / consecutive /
+/// random / all / no message) and the real FileTransfer plugin with keepFLDA:false on streams with file transfers, in
+/// chains of 1..3 plugins, alone and between the other stages
+fn gen_chain_pipeline(rng: &mut Rng, i: usize, max: u64) -> Pipeline {
+    let mut msgs = gen_msgs(rng, max);
+    while msgs.len() < 6 {
+        msgs = gen_msgs(rng, max);
+    }
+    let with_ft = matches!(i % 10, 4 | 5 | 6 | 7) || rng.chance(1, 3);
+    if with_ft {
+        add_transfers(rng, &mut msgs);
+    }
+    let n = msgs.len() as u32;
+    let mid = |rng: &mut Rng| rng.range(1, (n - 2) as u64) as u32;
+    let subset = |rng: &mut Rng, num: u64, den: u64| -> Vec<u32> { (0..n).filter(|_| rng.chance(num, den)).collect() };
+    let chain: Vec<Plug> = match i % 10 {
+        0 => vec![Plug::Reject(vec![0])],
+        1 => vec![Plug::Reject(vec![n - 1])],
+        2 => vec![Plug::Mark, Plug::Reject(vec![mid(rng)]), Plug::Mark],
+        3 => {
+            let a = mid(rng);
+            vec![Plug::Reject((a..(a + rng.range(2, 4) as u32).min(n)).collect()), Plug::Mark]
+        }
+        4 => vec![Plug::Ft(false, false)],
+        5 => vec![Plug::Mark, Plug::Ft(false, true), Plug::Reject(subset(rng, 1, 6))],
+        6 => vec![Plug::Reject(subset(rng, 1, 5)), Plug::Reject(subset(rng, 1, 4)), Plug::Ft(false, false)],
+        7 => vec![Plug::Ft(true, false), Plug::Reject(vec![])],
+        8 => vec![Plug::Reject((0..n).collect()), Plug::Mark],
+        _ => (0..rng.range(1, 3))
+            .map(|_| match rng.below(4) {
+                0 => Plug::Mark,
+                1 => Plug::Ft(rng.chance(1, 4), rng.chance(1, 2)),
+                2 => Plug::Reject(vec![0, 1, n - 1]),
+                _ => Plug::Reject(subset(rng, 1, 3)),
+            })
+            .collect(),
+    };
+    let stall: Vec<u8> = if rng.chance(1, 4) { (0..rng.range(1, 9)).map(|_| *rng.pick(&[0u8, 0, 0, 1, 2, 3])).collect() } else { vec![] };
+    let c = StageSpec::Chain(chain, stall);
+    let stages = match rng.below(9) {
+        0 | 1 => vec![c],
+        2 => vec![StageSpec::Lc, c],
+        3 => vec![c, StageSpec::Filter(gen_filters(rng))],
+        4 => vec![StageSpec::Lc, c, StageSpec::Filter(gen_filters(rng))],
+        5 => vec![c, StageSpec::Chain(vec![Plug::Reject(subset(rng, 1, 4)), Plug::Mark], vec![])],
+        6 => vec![StageSpec::Lc, c, StageSpec::Sort(*rng.pick(&[1u8, 3]), *rng.pick(&[0u64, 1_000, 100_000, 2_000_000]), false), StageSpec::Filter(gen_filters(rng))],
+        7 => vec![StageSpec::Lc, c, StageSpec::Sort(3, *rng.pick(&[100_000u64, 2_000_000]), true)],
+        _ => vec![StageSpec::Plugins(rng.range(2, 5) as u32, vec![]), c],
+    };
     Pipeline { msgs, stages, tail_from: None, stable_starts: false }
 }
 
@@ -834,17 +1437,48 @@ fn attribute(rng: &mut Rng, lag_prone: bool, inp: &[u32], out: &[u32]) -> (Vec<V
     (rows, flush)
 }
 
+/// pipelines without a time sort are given to the model by SPECIFICATION (every stage a chain of rejecting plugins,
+/// Pipe/Plugins.v); with a sort: table stages, the rows of the specifiable stages from their specification, the rows of
+/// the lifecycle stage and of the sort from the reference run
+fn spec_case_pipeline(p: &Pipeline) -> bool {
+    !p.stages.iter().any(|s| matches!(s, StageSpec::Sort(..)))
+}
+
 fn coq_case(p: &Pipeline, s: &Script, r: &RunOut) -> String {
     let mut rng = Rng::new(s.attr_seed);
     let input: Vec<u32> = (0..p.msgs.len() as u32).collect();
     let mut stages = vec![];
     let mut inp = input.clone();
+    if spec_case_pipeline(p) {
+        for st in p.stages.iter() {
+            let rejs = spec_rejects(&p.msgs, st, &inp).unwrap();
+            let (want, _) = spec_stage_out(&rejs, &inp);
+            stages.push(format!("({}, {})", st.policy(), clist(&rejs.iter().map(|r| cnums(r)).collect::<Vec<_>>())));
+            inp = want;
+        }
+        return format!(
+            "inr (inr (inr (inr (inr ({}, {}, {}, {}, {})))))",
+            cnums(&s.caps),
+            copt(s.drop_at.map(|k| k.to_string())),
+            cnums(&s.sched),
+            cnums(&input),
+            clist(&stages)
+        );
+    }
     for (i, st) in p.stages.iter().enumerate() {
         let out = &r.taps[i];
-        let lag = matches!(st, StageSpec::Lc | StageSpec::Sort(..));
-        let (rows, fl) = attribute(&mut rng, lag, &inp, out);
-        let rows_coq = clist(&inp.iter().zip(rows.iter()).map(|(e, o)| format!("({}, {})", e, cnums(o))).collect::<Vec<_>>());
-        stages.push(format!("({}, {}, {})", st.policy(), rows_coq, cnums(&fl)));
+        match (st, spec_rejects(&p.msgs, st, &inp)) {
+            (StageSpec::Lc, _) | (_, None) => {
+                let (rows, fl) = attribute(&mut rng, true, &inp, out);
+                let rows_coq = clist(&inp.iter().zip(rows.iter()).map(|(e, o)| format!("({}, {})", e, cnums(o))).collect::<Vec<_>>());
+                stages.push(format!("({}, {}, {})", st.policy(), rows_coq, cnums(&fl)));
+            }
+            (_, Some(rejs)) => {
+                let (want, _) = spec_stage_out(&rejs, &inp);
+                let rows_coq = clist(&inp.iter().map(|e| format!("({}, {})", e, if want.contains(e) { format!("[{}]", e) } else { "[]".to_string() })).collect::<Vec<_>>());
+                stages.push(format!("({}, {}, [])", st.policy(), rows_coq));
+            }
+        }
         inp = out.clone();
     }
     format!(
@@ -856,6 +1490,26 @@ fn coq_case(p: &Pipeline, s: &Script, r: &RunOut) -> String {
         clist(&stages),
         cbool(exact_pipeline(p))
     )
+}
+
+/// observation of a run: terminated, delivered ids; for the specified pipelines also the number of messages every plugin of
+/// every stage was asked about (the filter counts as one plugin) - of drained runs only
+fn case_obs(p: &Pipeline, s: &Script, b: &RunOut) -> O {
+    let mut v = vec![O::b(b.hung.is_empty()), O::T(b.delivered.iter().map(|m| O::n(m.0)).collect())];
+    if spec_case_pipeline(p) {
+        let mut counts = vec![];
+        if s.drop_at.is_none() {
+            for (i, st) in p.stages.iter().enumerate() {
+                let n_in = if i == 0 { p.msgs.len() } else { b.taps[i - 1].len() };
+                counts.push(match st {
+                    StageSpec::Filter(_) => O::T(vec![O::n(n_in as u64)]),
+                    _ => O::T(b.plog[i].iter().map(|l| O::n(l.len() as u64)).collect()),
+                });
+            }
+        }
+        v.push(O::T(counts));
+    }
+    O::T(v)
 }
 
 fn case_json(p: &Pipeline, s: &Script) -> Value {
@@ -895,8 +1549,57 @@ struct Done {
 fn run_case(p: &Pipeline, s: &Script, r: &RunOut, hang: Duration) -> Done {
     let b = run_real(p, s, hang);
     let verdict = oracle(p, s, r, &b);
-    let obs = O::T(vec![O::b(b.hung.is_empty()), O::T(b.delivered.iter().map(|m| O::n(m.0)).collect())]);
+    let obs = case_obs(p, s, &b);
     let mut tags: Vec<String> = vec![format!("shape_{}", p.stages.iter().map(|s| s.tag()).collect::<Vec<_>>().join(""))];
+    tags.push(if spec_case_pipeline(p) { "model_stages_from_specification".into() } else { "model_stages_from_specification_and_reference_tables".into() });
+    // plugins that reject: where in the stream, how many plugins, which
+    let mut inp: Vec<u32> = (0..p.msgs.len() as u32).collect();
+    for (i, st) in p.stages.iter().enumerate() {
+        if let (StageSpec::Chain(c, _), Some(rejs)) = (st, spec_rejects(&p.msgs, st, &inp)) {
+            let (want, seen) = spec_stage_out(&rejs, &inp);
+            tags.push(format!("chain_of_{}_plugins", c.len()));
+            let rejected: Vec<usize> = inp.iter().enumerate().filter(|(_, x)| !want.contains(x)).map(|(j, _)| j).collect();
+            if rejected.is_empty() {
+                tags.push("chain_rejects_nothing".into());
+            } else {
+                if rejected[0] == 0 {
+                    tags.push("chain_rejects_first_message".into());
+                }
+                if *rejected.last().unwrap() + 1 == inp.len() {
+                    tags.push("chain_rejects_last_message".into());
+                }
+                if rejected.iter().any(|j| *j > 0 && *j + 1 < inp.len()) {
+                    tags.push("chain_rejects_in_the_middle".into());
+                }
+                if rejected.windows(2).any(|w| w[1] == w[0] + 1) {
+                    tags.push("chain_rejects_consecutive_messages".into());
+                }
+                if rejected.len() == inp.len() {
+                    tags.push("chain_rejects_everything".into());
+                }
+                if want.last().map_or(false, |l| inp.iter().position(|x| x == l).unwrap() > rejected[0]) {
+                    tags.push("chain_forwards_messages_behind_a_rejected_one".into());
+                }
+            }
+            for (j, pl) in c.iter().enumerate() {
+                if !rejs[j].is_empty() && seen[j].iter().any(|x| rejs[j].contains(x)) {
+                    tags.push(format!("chain_rejecting_plugin_at_position_{}", j));
+                    if let Plug::Ft(..) = pl {
+                        tags.push("chain_file_transfer_plugin_drops_flda".into());
+                    }
+                }
+            }
+        }
+        if let StageSpec::Plugins(k, _) = st {
+            if *k >= 2 && inp.iter().any(|x| x % k == 0) && inp.iter().position(|x| x % k == 0) < inp.iter().rposition(|x| x % k != 0) {
+                tags.push("plugins_stage_forwards_messages_behind_a_rejected_one".into());
+            }
+        }
+        inp = r.taps.get(i).cloned().unwrap_or_default();
+    }
+    if p.msgs.iter().any(|m| m.3 == 4) {
+        tags.push("stream_with_file_transfer".into());
+    }
     tags.push(format!("mincap_{}", s.caps.iter().min().unwrap()));
     if s.caps.iter().any(|c| *c == 0) {
         tags.push("rendezvous".into());
@@ -1085,8 +1788,13 @@ fn gen_loss_scenarios(rng: &mut Rng, n_lc: usize, n_other: usize, max: u64) -> V
         let tail_from = prefix.len();
         let mut msgs = prefix.clone();
         msgs.extend(tidy_tail(&prefix, 30));
+        let nn = msgs.len() as u32;
         let kind = match i % 3 {
-            0 => StageSpec::Plugins(if rng.chance(1, 2) { 0 } else { rng.range(2, 5) as u32 }, vec![]),
+            0 => match rng.below(3) {
+                0 => StageSpec::Plugins(0, vec![]),
+                1 => StageSpec::Plugins(rng.range(2, 5) as u32, vec![]),
+                _ => StageSpec::Chain(vec![Plug::Reject((0..nn).filter(|x| *x == 0 || rng.chance(1, 4)).collect()), Plug::Mark], vec![]),
+            },
             1 => StageSpec::Sort(*rng.pick(&[1u8, 3]), *rng.pick(&[0u64, 1_000, 100_000, 2_000_000, 20_000_000]), false),
             _ => StageSpec::Filter(gen_filters(rng)),
         };
@@ -1134,22 +1842,18 @@ fn run_loss(sc: &LossScenario, k: Option<usize>, watchdog: Duration) -> LossRun 
                 Err(std::sync::mpsc::SendError(m))
             }
         };
-        match kind {
+        match &kind {
             StageSpec::Lc => {
                 let (_r, w) = evmap::Options::default().with_hasher(Hasher::default()).construct::<LifecycleId, LifecycleItem>();
                 let _w = parse_lifecycles_buffered_from_stream(w, rx, &outflow);
             }
-            StageSpec::Plugins(k, _) => {
-                let mut plugins: Vec<Box<dyn Plugin + Send>> = vec![];
-                if k >= 2 {
-                    plugins.push(Box::new(DropEvery { k, state: Arc::new(RwLock::new(PluginState::default())) }));
-                    plugins.push(Box::new(Numbering { n: 0, state: Arc::new(RwLock::new(PluginState::default())) }));
-                }
+            StageSpec::Plugins(..) | StageSpec::Chain(..) => {
+                let (plugins, _) = make_plugins(&kind, false, &[]);
                 let _ = plugins_process_msgs(rx, &outflow, plugins);
             }
             StageSpec::Sort(win, delay, _) => {
                 let (r, _w) = evmap::Options::default().with_hasher(Hasher::default()).construct::<LifecycleId, LifecycleItem>();
-                let _ = buffer_sort_messages(rx, &outflow, &r, win, delay);
+                let _ = buffer_sort_messages(rx, &outflow, &r, *win, *delay);
             }
             StageSpec::Filter(fs) => {
                 let filters: Vec<Filter> = fs.iter().map(|j| Filter::from_json(j).expect("filter json")).collect();
@@ -1162,8 +1866,9 @@ fn run_loss(sc: &LossScenario, k: Option<usize>, watchdog: Duration) -> LossRun 
     });
     let mut disconnected = false;
     let mut gave_up = false;
-    'feed: for (i, spec) in sc.msgs.iter().enumerate() {
-        let mut msg = build_msg(i, spec);
+    let built = build_stream(&sc.msgs);
+    'feed: for (_i, m0) in built.into_iter().enumerate() {
+        let mut msg = m0;
         let t0 = Instant::now();
         loop {
             let mut g = handed.lock().unwrap();
@@ -1252,6 +1957,15 @@ fn loss_case(sc: &LossScenario, ks_replay: Option<Vec<usize>>) -> LossDone {
     }
     if !r.returned || r.handed != n || r.disconnected {
         verdict = fail("loss_reference_completes", format!("undisturbed run: returned={} pulled {} of {} disconnected={}", r.returned, r.handed, n, r.disconnected));
+    }
+    // the undisturbed run against the stage's specification (evaluated here): what is forwarded, in which order
+    let all: Vec<u32> = (0..n as u32).collect();
+    if let (Verdict::Ok, Some(rejs)) = (&verdict, spec_rejects(&sc.msgs, &sc.kind, &all)) {
+        let (want, _) = spec_stage_out(&rejs, &all);
+        let got: Vec<u32> = r.calls.iter().map(|c| c.0).collect();
+        if got != want {
+            verdict = fail("stage_forwards_what_its_specification_says", format!("undisturbed run of the stage ({}): forwarded {}, specified {}", sc.kind.tag(), short(&got), short(&want)));
+        }
     }
     // the point from which every message is forwarded directly in the undisturbed run
     let plain = |i: usize| is_lc && rows[i].0.is_empty() && rows[i].1 == Some(i as u32);
@@ -1410,6 +2124,72 @@ fn gen_double_reboot_end(rng: &mut Rng, max: u64, stable: bool) -> Vec<MsgSpec> 
     v
 }
 
+
+/// an ecu whose lifecycle P is still buffered gets a RESUME lifecycle L (reception gap >= 10 s, timestamps going on), L grows
+/// to a timestamp span of more than 60 s within a few seconds (confirmed by its span and PUBLISHED while P is still
+/// buffered), then a message with a timestamp below 7/8 of the timestamp at which L resumed arrives: L loses its resume tag,
+/// overlaps P and is merged into the buffered P - the published entry of L has to be removed from the table again
+/// (merge branch "predecessor still buffered, merged lifecycle already published").  Variations: number of messages, steps of
+/// the growth, another ecu chattering along, messages going on afterwards, and (1 in 5) no untagging message at all.
+fn gen_resume_untag(rng: &mut Rng) -> Vec<MsgSpec> {
+    let s = 1_000_000u64;
+    let e = 1u8;
+    let mut v: Vec<MsgSpec> = vec![];
+    let t0 = RHO + rng.range(100, 2000) * s;
+    let ts0 = rng.range(50, 300) * s;
+    let np = rng.range(1, 3);
+    for i in 0..np {
+        v.push((e, t0 + i * 200_000, ((ts0 + i * 200_000) / 100) as u32, 0));
+    }
+    let (p_last_rt, p_max_ts) = (t0 + (np - 1) * 200_000, ts0 + (np - 1) * 200_000);
+    let g = rng.range(10, 25) * s;
+    let d = rng.below((g - 10 * s) / s + 1) * s;
+    let (mut rt, mut ts) = (p_last_rt + g, p_max_ts + d);
+    v.push((e, rt, (ts / 100) as u32, 0));
+    let steps = rng.range(1, 3);
+    let total = rng.range(61, 75) * s;
+    for k in 0..steps {
+        let dts = total / steps + if k + 1 == steps { total % steps } else { 0 };
+        let drt = (rng.range(1, 3) * s).max(dts.saturating_sub(59 * s));
+        rt += drt;
+        ts += dts;
+        v.push((e, rt, (ts / 100) as u32, 0));
+    }
+    for _ in 0..rng.below(3) {
+        let drt = rng.range(1_100_000, 2_000_000);
+        rt += drt;
+        ts += drt;
+        v.push((e, rt, (ts / 100) as u32, 0));
+    }
+    if !rng.chance(1, 5) {
+        rt += rng.range(1, 3) * s;
+        let ts_u = p_max_ts / 100 * rng.range(30, 85);
+        v.push((e, rt, (ts_u / 100) as u32, 0));
+        // the ecu goes on on P's time line
+        for i in 0..rng.below(4) {
+            rt += rng.range(1_100_000, 3_000_000);
+            v.push((e, rt, ((ts_u + (i + 1) * 1_500_000) / 100) as u32, 0));
+        }
+    }
+    if rng.chance(1, 2) {
+        // another ecu chattering along (its own lifecycle, buffered as well)
+        let end = rt;
+        let mut t = t0 - rng.below(5) * s;
+        let boot = t - rng.range(5, 40) * s;
+        while t < end + 2 * s {
+            v.push((2, t, ((t - boot) / 100) as u32, 0));
+            t += rng.range(1_100_000, 4_000_000);
+        }
+        v.sort_by_key(|m| m.1);
+    }
+    if rng.chance(1, 3) {
+        // quiet for more than a minute, then a third ecu: whatever is still buffered gets confirmed
+        let t = v.iter().map(|m| m.1).max().unwrap() + rng.range(61, 120) * s;
+        v.push((3, t, 10_000, 0));
+    }
+    v
+}
+
 fn from_lcgen(ms: Vec<lcgen::MSpec>) -> Vec<MsgSpec> {
     ms.into_iter().filter(|m| m.kind <= 1).map(|m| (m.ecu.max(1), m.rt, m.ts_dms, if m.kind == 1 { 1 } else { 2 })).collect()
 }
@@ -1418,11 +2198,12 @@ fn from_lcgen(ms: Vec<lcgen::MSpec>) -> Vec<MsgSpec> {
 fn gen_reader_pipeline(rng: &mut Rng, i: usize, max: u64) -> Pipeline {
     let stable = i % 2 == 0;
     let msgs = match i % 6 {
+        0 | 1 | 2 | 3 if i % 7 == 3 => gen_resume_untag(rng),
         0 | 1 | 2 | 3 => gen_double_reboot_end(rng, max, stable),
         4 => from_lcgen(lcgen::gen_scenario(rng)).into_iter().take(max as usize + 20).collect(),
         _ => from_lcgen(if rng.chance(1, 2) { lcgen::gen_merge_template(rng) } else { lcgen::gen_general(rng, max) }),
     };
-    let stable_starts = stable && i % 6 < 4;
+    let stable_starts = stable && i % 6 < 4 && i % 7 != 3;
     let mut stages = vec![StageSpec::Lc];
     match rng.below(5) {
         0 => stages.push(StageSpec::Probe),
@@ -1449,7 +2230,7 @@ struct SendView {
     visible: Vec<u32>,
     known: bool,
 }
-fn run_pub_before_send(msgs: &[MsgSpec]) -> Result<(Vec<SendView>, Vec<u32>), String> {
+fn run_pub_before_send(msgs: &[MsgSpec]) -> Result<(Vec<SendView>, Vec<u32>, Vec<(u32, usize)>), String> {
     let msgs = msgs.to_vec();
     catch(move || {
         let (lcs_r, lcs_w) = evmap::Options::default().with_hasher(Hasher::default()).construct::<LifecycleId, LifecycleItem>();
@@ -1459,7 +2240,9 @@ fn run_pub_before_send(msgs: &[MsgSpec]) -> Result<(Vec<SendView>, Vec<u32>), St
         }
         drop(tx);
         let views = std::cell::RefCell::new(vec![]);
+        let bags = std::cell::RefCell::new(vec![]);
         let w = parse_lifecycles_buffered_from_stream(lcs_w, rx, &|m: DltMessage| {
+            note_bag_defects(&lcs_r, &mut bags.borrow_mut());
             let mut visible = vec![];
             if let Some(r) = lcs_r.read() {
                 for (id, bag) in &r {
@@ -1480,8 +2263,9 @@ fn run_pub_before_send(msgs: &[MsgSpec]) -> Result<(Vec<SendView>, Vec<u32>), St
             }
         }
         fin.sort();
+        note_bag_defects(&lcs_r, &mut bags.borrow_mut());
         drop(w);
-        (views.into_inner(), fin)
+        (views.into_inner(), fin, bags.into_inner())
     })
 }
 
@@ -1498,12 +2282,12 @@ fn shared_case(msgs: &[MsgSpec], runs: Vec<(usize, u8, Vec<u64>)>, family: &str,
     let fail = |c: &str, d: String| Verdict::Fail { clause: c.into(), detail: d };
     let mut verdict = Verdict::Ok;
     let mut tags = vec!["shared_table".to_string(), format!("shared_family_{}", family)];
-    let (views, fin) = match run_pub_before_send(msgs) {
+    let (views, fin, bags) = match run_pub_before_send(msgs) {
         Ok(x) => x,
         Err(e) => {
             tags.push("stage_panicked".into());
             let _ = e;
-            (vec![], vec![])
+            (vec![], vec![], vec![])
         }
     };
     // ranks of lifecycle ids
@@ -1527,7 +2311,9 @@ fn shared_case(msgs: &[MsgSpec], runs: Vec<(usize, u8, Vec<u64>)>, family: &str,
     };
     let _ = first_visible;
     // ---- the side condition, on the real stage: published before sent, and still there at the end
-    if let Some(v) = views.iter().find(|v| !v.known) {
+    if let Some(d) = bags.first() {
+        verdict = fail("table_keys_have_exactly_one_value", format!("the lifecycle table had a key (lifecycle id {}) with {} values inside an outflow call / after the stage returned", d.0, d.1));
+    } else if let Some(v) = views.iter().find(|v| !v.known) {
         verdict = fail("published_before_sent", format!("message {} was handed to the outflow while its lifecycle was not in the shared table (visible ids at that moment: {} of {} at the end)", v.index, v.visible.len(), fin.len()));
     } else if let Some(v) = views.iter().find(|v| !fin.contains(&v.lc)) {
         verdict = fail("published_stays", format!("the lifecycle of delivered message {} is not in the final table", v.index));
@@ -1823,8 +2609,8 @@ mod remote {
         let path = dir.join(format!("r{}.dlt", uniq));
         {
             let mut f = std::io::BufWriter::new(std::fs::File::create(&path).unwrap());
-            for (i, m) in c.msgs.iter().enumerate() {
-                build_msg(i, m).to_write(&mut f).unwrap();
+            for m in build_stream(&c.msgs) {
+                m.to_write(&mut f).unwrap();
             }
             f.flush().unwrap();
         }
@@ -1841,12 +2627,22 @@ mod remote {
         if c.delay.is_empty() {
             tags.push("remote_delay_none".into());
         }
-        let (n, pre, fin) = match library_truth(&path) {
+        let (n_file, pre, fin) = match library_truth(&path) {
             Ok(x) => x,
             Err(e) => {
                 return RemoteDone { c: c.clone(), input_coq: "inr (inr (inr (inl ([], [], 0, []))))".into(), obs: O::T(vec![O::L(0), O::T(vec![])]), verdict: fail("library_run", e), tags, wall_ms: 0 };
             }
         };
+        // specification of the plugins stage as remote.rs wires it: the FileTransfer plugin of a client that does not say
+        // keepFLDA drops exactly the file-transfer data packages; everything else reaches the client
+        let dropped = if c.plugin { c.msgs.iter().filter(|m| spec_ft_rejects(m.3, false, false)).count() } else { 0 };
+        let n = n_file - dropped.min(n_file);
+        if dropped > 0 {
+            tags.push("remote_plugin_drops_flda".into());
+        }
+        if n_file != c.msgs.len() {
+            tags.push("remote_file_not_read_completely".into());
+        }
         let pre_rows: Vec<Row> = pre.iter().map(|x| x.1).collect();
         let fin_rows: Vec<Row> = fin.iter().map(|x| x.1).collect();
         if pre_rows != fin_rows {
@@ -1879,7 +2675,7 @@ mod remote {
                     if !finished {
                         verdict = fail("parser_finishes", format!("the end of parsing was not announced within 30 s ({} messages, file infos {:?}, dead {:?})", n, cl.file_infos, cl.dead));
                     } else if announced as usize != n {
-                        verdict = fail("client_message_count", format!("the client was told {} messages, the file has {}", announced, n));
+                        verdict = fail("client_message_count", format!("the client was told {} messages; the file has {}, of which the FileTransfer plugin (keepFLDA not set) has to drop {}", announced, n_file, dropped));
                     } else if client_rows != fin_rows {
                         verdict = fail(
                             "client_final_table_equals_library_table",
@@ -1933,12 +2729,18 @@ mod remote {
             }
             _ => (gen_double_reboot_end(rng, max, true), "double_reboot_end".to_string()),
         };
-        let msgs = if msgs.len() < 3 { (0..5).map(|k| (1u8, RHO + 1000 + k * 1_000_000, (10 + k * 10_000) as u32, 0u8)).collect() } else { msgs };
+        let mut msgs: Vec<MsgSpec> = if msgs.len() < 3 { (0..5).map(|k| (1u8, RHO + 1000 + k * 1_000_000, (10 + k * 10_000) as u32, 0u8)).collect() } else { msgs };
+        let sorted = i >= 2 && rng.chance(1, 2);
+        let plugin = i >= 2 && rng.chance(1, 2);
+        if plugin && rng.chance(3, 4) {
+            // file transfers in the stream: the plugin of the session rejects their data packages
+            add_transfers(rng, &mut msgs);
+        }
         RemoteCase {
             msgs,
             family: family.split('@').next().unwrap().to_string(),
-            sorted: i >= 2 && rng.chance(1, 2),
-            plugin: i >= 2 && rng.chance(1, 3),
+            sorted,
+            plugin,
             delay: delay.to_string(),
             stall_ms: if rng.chance(1, 3) { rng.range(30, 150) } else { 0 },
             sched: (0..40).map(|_| rng.below(60)).collect(),
@@ -1998,7 +2800,7 @@ mod incr {
     #[derive(Clone, Debug)]
     pub struct Run {
         pub cap: usize,
-        pub mid: bool,            // a plugins stage (no plugin) between the lifecycle stage and the consumer
+        pub mid: bool,            // a plugins stage (a marking plugin and one that rejects every 4th message) between the lifecycle stage and the consumer
         pub paced_producer: bool, // producer behind a channel of the same capacity, paced by `cons` rotated
         pub polls: Vec<u8>,       // after the k-th received message (cyclic): 0 no look, 1 look, 2 yield + look, 3 200 us + look
         pub cons: Vec<u8>,        // pacing before the k-th recv (cyclic)
@@ -2116,7 +2918,7 @@ mod incr {
 
     pub fn gen_trace(rng: &mut Rng, i: usize, max: u64) -> Trace {
         let s = 1_000_000u64;
-        let fam = i % 6;
+        let fam = i % 8;
         let necu = rng.range(2, 5) as usize;
         let mut tb = Tb { now: RHO + 10 * s, boot: vec![None; necu + 1], jitter: if rng.chance(1, 3) { rng.range(1_000, 150_000) } else { 0 }, v: vec![] };
         let family;
@@ -2205,6 +3007,52 @@ mod incr {
                     }
                 }
             }
+            // a REGULAR refresh followed by another kind of publication: ecu 0 is confirmed and runs (with a large index
+            // stride every direct forward of one of its messages does a regular refresh); it goes quiet while another ecu
+            // sends a short block (everything is queued, no refresh); after more than a minute of silence a message of
+            // ecu 0 / of the other ecu after a reboot / of a new ecu confirms the short lifecycle (a CONFIRMATION refresh, its
+            // messages are released at once and it is never published again), then ecu 0 goes on (regular refreshes again),
+            // or the stream ends (end-of-stream publication, final forced refresh); 1..3 rounds
+            6 => {
+                family = "regular_then_confirm";
+                tb.msg(rng, 0, 0, false);
+                let t_conf = tb.now + rng.range(62, 90) * s;
+                while tb.now < t_conf {
+                    let a1 = rng.range(1_100_000, 9_000_000);
+                    tb.msg(rng, 0, a1, false);
+                }
+                for _ in 0..rng.below(4) {
+                    let a1 = rng.range(1_100_000, 3_000_000);
+                    tb.msg(rng, 0, a1, false);
+                }
+                let rounds = rng.range(1, 3);
+                for round in 0..rounds {
+                    let b = 1 + rng.below(necu as u64 - 1) as usize;
+                    let reboot = tb.boot[b].is_some();
+                    for i in 0..rng.range(1, 4) {
+                        let step = if i == 0 { rng.range(1_100_000, 3_000_000) } else { rng.range(20_000, 400_000) };
+                        tb.msg(rng, b, step, reboot && i == 0);
+                    }
+                    tb.now += rng.range(61, 120) * s;
+                    match rng.below(4) {
+                        0 | 1 => {}                          // ecu 0 goes on: its message confirms the short lifecycle
+                        2 => tb.msg(rng, b, 0, true),        // the other ecu reboots: confirmed by its new lifecycle, which is buffered
+                        _ => tb.msg(rng, necu, 0, false),    // an ecu not seen so far
+                    }
+                    if round + 1 == rounds && rng.chance(1, 3) {
+                        break; // the stream ends here
+                    }
+                    for _ in 0..rng.range(1, 6) {
+                        let a1 = rng.range(1_100_000, 5_000_000);
+                        tb.msg(rng, 0, a1, false);
+                    }
+                }
+            }
+            // a published lifecycle that is merged into its still buffered predecessor (its key has to leave the table again)
+            7 => {
+                family = "resume_untag";
+                tb.v = gen_resume_untag(rng);
+            }
             _ => {
                 family = "mixed";
                 tb.v = match rng.below(4) {
@@ -2223,6 +3071,7 @@ mod incr {
         }
         let stride = match fam {
             4 => *rng.pick(&[33_334u32, 50_001, 100_001, 100_001]),
+            6 => *rng.pick(&[33_334u32, 50_001, 100_001, 100_001, 200_000]),
             _ => *rng.pick(&[1u32, 1, 40_000, 100_001]),
         };
         // names: a seeded assignment of first letters (different buckets of the stage's ecu map), or the names of dltgen
@@ -2277,6 +3126,29 @@ mod incr {
             names: vec![],
             family: "corpus_published_lifecycle_merged_away".into(),
         });
+        // regular refresh, then a confirmation: ecu 1 runs for 100 s (every message after its confirmation is forwarded directly
+        // and, with these strides, does a regular refresh), ecu 2 sends two messages, 70 s later ecu 1 goes on / ecu 3 appears
+        for (stride, trig, go_on) in [(100_001u32, 1u8, 3u64), (50_001, 1, 2), (200_000, 3, 0), (100_001, 3, 4), (33_334, 1, 0)] {
+            let mut msgs: Vec<MsgSpec> = (0..11u64).map(|i| (1u8, RHO + 10 * s + i * 10 * s, (10_000 + i * 100_000) as u32, 0u8)).collect();
+            msgs.push((2, RHO + 112 * s, 30_000, 0));
+            msgs.push((2, RHO + 112 * s + 300_000, 33_000, 0));
+            let t = RHO + 185 * s;
+            msgs.push((trig, t, if trig == 1 { 1_760_000 } else { 20_000 }, 0));
+            for i in 0..go_on {
+                msgs.push((1, t + (i + 1) * 2 * s, (1_760_000 + (i + 1) * 20_000) as u32, 0));
+            }
+            v.push(Trace { msgs, stride, names: vec![], family: "corpus_regular_refresh_then_confirmation".into() });
+        }
+        // a resume lifecycle published, untagged and merged into its still buffered predecessor (1000/100 1010/100 1012/162 1014/80)
+        for chatter in [false, true] {
+            let mut msgs: Vec<MsgSpec> = vec![(1, RHO + 1000 * s, 1_000_000, 0), (1, RHO + 1010 * s, 1_000_000, 0), (1, RHO + 1012 * s, 1_620_000, 0), (1, RHO + 1014 * s, 800_000, 0)];
+            if chatter {
+                msgs.insert(2, (2, RHO + 1011 * s, 50_000, 0));
+                msgs.push((2, RHO + 1015 * s, 90_000, 0));
+                msgs.push((1, RHO + 1016 * s, 820_000, 0));
+            }
+            v.push(Trace { msgs, stride: 1, names: vec![], family: "corpus_published_resume_lifecycle_merged_into_buffered_predecessor".into() });
+        }
         v.push(Trace { msgs: vec![], stride: 1, names: vec![], family: "corpus_empty".into() });
         v.push(Trace { msgs: vec![(1, RHO, 10, 0)], stride: 100_001, names: vec![], family: "corpus_one_message".into() });
         v
@@ -2300,7 +3172,7 @@ mod incr {
 
     // ---------------------------------------------------------------- deterministic part
     /// the real stage alone; the table as readers see it at every outflow call (message index, view), and at the end
-    pub fn run_views(t: &Trace) -> Result<(Vec<(u32, Vec<Ent>)>, Vec<Ent>), String> {
+    pub fn run_views(t: &Trace) -> Result<(Vec<(u32, Vec<Ent>)>, Vec<Ent>, Vec<(u32, usize)>), String> {
         let msgs = build(t);
         catch(move || {
             let (lcs_r, lcs_w) = evmap::Options::default().with_hasher(Hasher::default()).construct::<LifecycleId, LifecycleItem>();
@@ -2310,13 +3182,16 @@ mod incr {
             }
             drop(tx);
             let views = std::cell::RefCell::new(vec![]);
+            let bags = std::cell::RefCell::new(vec![]);
             let w = parse_lifecycles_buffered_from_stream(lcs_w, rx, &|m: DltMessage| {
+                note_bag_defects(&lcs_r, &mut bags.borrow_mut());
                 views.borrow_mut().push((m.index, read_table(&lcs_r)));
                 Ok(())
             });
+            note_bag_defects(&lcs_r, &mut bags.borrow_mut());
             let fin = read_table(&lcs_r);
             drop(w);
-            (views.into_inner(), fin)
+            (views.into_inner(), fin, bags.into_inner())
         })
     }
 
@@ -2394,10 +3269,17 @@ mod incr {
         pub hung: bool,
         pub panicked: bool,
         pub looks: usize,
+        pub bags: Vec<(u32, usize)>,
+    }
+
+    /// the messages the plugins stage between the lifecycle stage and the consumer rejects (by index)
+    pub fn mid_rejects(t: &Trace) -> Vec<u32> {
+        (0..t.msgs.len() as u32).filter(|i| i % 4 == 1).map(|i| i.saturating_mul(t.stride.max(1))).collect()
     }
 
     pub fn run_threaded(t: &Trace, r: &Run, hang: Duration) -> Out {
         let msgs = build(t);
+        let mid_chain = StageSpec::Chain(vec![Plug::Mark, Plug::Reject(mid_rejects(t))], vec![]);
         let (lcs_r, lcs_w) = evmap::Options::default().with_hasher(Hasher::default()).construct::<LifecycleId, LifecycleItem>();
         let (done_tx, done_rx) = sync_channel::<usize>(8);
         let (tx0, rx0) = sync_channel::<DltMessage>(if r.paced_producer { r.cap } else { LARGE.max(msgs.len() + 1) });
@@ -2428,7 +3310,7 @@ mod incr {
             nthreads = 3;
             mid = Some(std::thread::spawn(move || {
                 let _g = g;
-                plugins_process_msgs(rx1, &|m| sync_sender_send_delay_if_full(m, &tx2), vec![]).is_ok()
+                plugins_process_msgs(rx1, &|m| sync_sender_send_delay_if_full(m, &tx2), make_plugins(&mid_chain, false, &[]).0).is_ok()
             }));
             rx2
         } else {
@@ -2439,6 +3321,7 @@ mod incr {
         let mut delivered = vec![];
         let mut looks = 0usize;
         let mut k = 0usize;
+        let mut bags: Vec<(u32, usize)> = vec![];
         loop {
             if !r.cons.is_empty() {
                 pace(r.cons[k % r.cons.len()]);
@@ -2453,6 +3336,7 @@ mod incr {
                             2 => std::thread::yield_now(),
                             _ => std::thread::sleep(Duration::from_micros(200)),
                         }
+                        note_bag_defects(&lcs_r, &mut bags);
                         f.poll(&read_table(&lcs_r));
                         looks += 1;
                     }
@@ -2471,19 +3355,20 @@ mod incr {
             }
         }
         if finished < nthreads {
-            return Out { delivered, follower: f, fin: vec![], hung: true, panicked: false, looks };
+            return Out { delivered, follower: f, fin: vec![], hung: true, panicked: false, looks, bags };
         }
         let _ = producer.join();
         let mid_ok = mid.map_or(true, |h| h.join().unwrap_or(false));
         match lc.join() {
             Ok(w) => {
                 // the look after everything has finished (a consumer that never stops ticking)
+                note_bag_defects(&lcs_r, &mut bags);
                 let fin = read_table(&lcs_r);
                 f.poll(&fin);
                 drop(w);
-                Out { delivered, follower: f, fin, hung: false, panicked: !mid_ok, looks }
+                Out { delivered, follower: f, fin, hung: false, panicked: !mid_ok, looks, bags }
             }
-            Err(_) => Out { delivered, follower: f, fin: vec![], hung: false, panicked: true, looks },
+            Err(_) => Out { delivered, follower: f, fin: vec![], hung: false, panicked: true, looks, bags },
         }
     }
 
@@ -2510,14 +3395,19 @@ mod incr {
         let mut classes = vec![];
         let mut tags = vec!["incr_follower".to_string(), format!("incr_family_{}", t.family), format!("incr_stride_{}", if t.stride == 1 { "1" } else if t.stride < 100_000 { "sub_100k" } else { "over_100k" })];
         tags.push(if t.names.is_empty() { "incr_names_dltgen".into() } else { "incr_names_permuted".into() });
-        let (views, fin) = match run_views(t) {
+        let (views, fin, bags) = match run_views(t) {
             Ok(x) => x,
             Err(e) => {
                 tags.push("stage_panicked".into());
                 verdict = fail("incr_stage_runs", e);
-                (vec![], vec![])
+                (vec![], vec![], vec![])
             }
         };
+        // every key of the table has exactly one value, whenever a reader looks (remote.rs: `b.get_one().unwrap()`)
+        let mut n_bag_defects = bags.len();
+        if let (Verdict::Ok, Some(d)) = (&verdict, bags.first()) {
+            verdict = fail("table_keys_have_exactly_one_value", format!("the lifecycle table had a key (lifecycle id {}) with {} values inside an outflow call / after the stage returned: a reader that unwraps get_one() dies", d.0, d.1));
+        }
         // ranks of the lifecycle ids (process-wide counter): all ids ever visible at a send or at the end
         let mut ids: BTreeSet<u32> = fin.iter().map(|e| e.0).collect();
         for (_, v) in &views {
@@ -2531,7 +3421,9 @@ mod incr {
         let mut n_refresh = 0usize;
         let mut n_between_sends_max = 0usize;
         let mut first_pub: Vec<(u32, u32, usize)> = vec![]; // (id, idx, number of sends before)
+        let mut refresh_kinds: Vec<(bool, usize)> = vec![]; // per refresh: publishes a lifecycle for the first time?, sends before
         let mut delta = |v: &[Ent], prev: &mut BTreeMap<u32, Ent>, evs: &mut Vec<String>, sends: usize| -> usize {
+            let refresh_kinds = &mut refresh_kinds;
             let mut groups: BTreeMap<u32, Vec<Ent>> = BTreeMap::new();
             for e in v {
                 if prev.get(&e.0) != Some(e) {
@@ -2547,12 +3439,15 @@ mod incr {
             for (idx, es) in groups {
                 let ups: Vec<String> = es.iter().map(|e| format!("({}, {})", rank(e.0), cnums(&[e.1 as u64, e.2 as u64, e.3, e.4]))).collect();
                 evs.push(format!("(0, {}, {})", idx, clist(&ups)));
+                let mut first = false;
                 for e in es {
                     if !prev.contains_key(&e.0) {
                         first_pub.push((e.0, idx, sends));
+                        first = true;
                     }
                     prev.insert(e.0, e);
                 }
+                refresh_kinds.push((first, sends));
             }
             n
         };
@@ -2582,6 +3477,21 @@ mod incr {
         }
         if crit {
             tags.push("incr_consecutive_first_publications_with_sends_between".into());
+        }
+        // a refresh that only re-publishes known lifecycles (a regular refresh) followed, after sends, by one that publishes a
+        // new lifecycle (a confirmation / the end-of-stream publication), or by another regular one
+        for w in refresh_kinds.windows(2) {
+            if !w[0].0 && w[1].1 > w[0].1 {
+                let t = if w[1].0 { "incr_regular_refresh_then_first_publication".to_string() } else { "incr_regular_refresh_then_regular_refresh".to_string() };
+                if !tags.contains(&t) {
+                    tags.push(t);
+                }
+            }
+        }
+        if let (Some(l), true) = (refresh_kinds.iter().rposition(|k| k.0), refresh_kinds.len() >= 2) {
+            if l > 0 && !refresh_kinds[l - 1].0 && fin.iter().any(|e| first_pub.iter().any(|f| f.0 == e.0 && f.1 == e.5 && f.2 == refresh_kinds[l].1)) {
+                tags.push("incr_lifecycle_confirmed_after_a_regular_refresh_never_published_again".into());
+            }
         }
         if crit_final {
             tags.push("incr_second_of_them_never_published_again".into());
@@ -2656,6 +3566,10 @@ mod incr {
         for r in &runs {
             let o = run_threaded(t, r, hang);
             looks_total += o.looks;
+            n_bag_defects += o.bags.len();
+            if let (Verdict::Ok, Some(d)) = (&verdict, o.bags.first()) {
+                verdict = fail("table_keys_have_exactly_one_value", format!("capacity {}: the lifecycle table had a key (lifecycle id {}) with {} values when the consumer looked", r.cap, d.0, d.1));
+            }
             let o_ids: Vec<u32> = o.fin.iter().map(|e| e.0).collect();
             thr_obs.push(restricted(&o.follower, &o_ids, &fin_ranks));
             if !matches!(verdict, Verdict::Ok) {
@@ -2666,8 +3580,8 @@ mod incr {
                 verdict = fail("terminates", format!("{}: threads still running after the timeout", what));
             } else if o.panicked {
                 verdict = fail("no_stage_dies", format!("{}: a stage panicked", what));
-            } else if o.delivered != want {
-                verdict = fail("same_sequence", format!("{}: delivered {:?}, the stage alone forwards {:?}", what, o.delivered, want));
+            } else if o.delivered != (if r.mid { want.iter().copied().filter(|x| !mid_rejects(t).contains(x)).collect::<Vec<u32>>() } else { want.clone() }) {
+                verdict = fail("same_sequence", format!("{}: delivered {:?}, the lifecycle stage alone forwards {:?}{}", what, o.delivered, want, if r.mid { format!(", of which the plugins stage has to reject {:?}", mid_rejects(t)) } else { String::new() }));
             } else if canon_fin(&o.fin) != canon_fin(&fin) {
                 verdict = fail("same_final_table_and_results", format!("{}: final table {:?}, the stage alone ends with {:?}", what, o.fin, fin));
             } else {
@@ -2686,8 +3600,8 @@ mod incr {
         let _ = looks_total;
         let pats_coq = clist(&pats.iter().map(|p| cnums(&p.iter().map(|b| *b as u8).collect::<Vec<_>>())).collect::<Vec<_>>());
         let runs_coq = clist(&runs.iter().map(|r| format!("({}, {})", r.cap, cnums(&r.sched))).collect::<Vec<_>>());
-        let input_coq = format!("inr (inr (inr (inr ({}, {}, {}))))", clist(&evs), pats_coq, runs_coq);
-        Done { t: t.clone(), pats, runs, input_coq, obs: O::T(vec![O::T(det_obs), O::T(thr_obs)]), verdict, classes, tags, states: ex.states }
+        let input_coq = format!("inr (inr (inr (inr (inl ({}, {}, {})))))", clist(&evs), pats_coq, runs_coq);
+        Done { t: t.clone(), pats, runs, input_coq, obs: O::T(vec![O::T(det_obs), O::T(thr_obs), O::n(n_bag_defects as u64)]), verdict, classes, tags, states: ex.states }
     }
 
     fn rank_or0(ids: &[u32], id: u32) -> u64 {
@@ -2733,6 +3647,29 @@ fn corpus() -> Vec<Pipeline> {
         Pipeline {
             msgs: vec![(1, RHO + s, 5_000, 0), (2, RHO + s, 6_500, 0), (2, RHO + s + s / 5, 10_000, 0), (1, RHO + 80 * s, 795_000, 0), (1, RHO + 81 * s, 809_000, 0), (2, RHO + 81 * s + s / 10, 807_000, 0)],
             stages: vec![StageSpec::Lc, StageSpec::Sort(3, 2_000_000, true)],
+            tail_from: None,
+            stable_starts: false,
+        },
+        // a chain of two plugins, the first rejects messages 17 and 18 of 60: the other 58 arrive, in order
+        Pipeline { msgs: (0..60).map(|i| (1 + (i % 2) as u8, RHO + i * 1000, (i * 10) as u32, 0u8)).collect(), stages: vec![StageSpec::Chain(vec![Plug::Reject(vec![17, 18]), Plug::Mark], vec![])], tail_from: None, stable_starts: false },
+        // the real FileTransfer plugin with keepFLDA:false: FLST at 9, FLDA at 10 and 11, FLFI at 12 of 40 messages, behind lifecycle detection
+        Pipeline {
+            msgs: (0..40).map(|i| (1u8, RHO + i * 500_000, (10_000 + i * 5_000) as u32, match i { 9 => 3u8, 10 | 11 => 4, 12 => 5, _ => 0 })).collect(),
+            stages: vec![StageSpec::Lc, StageSpec::Chain(vec![Plug::Ft(false, false)], vec![])],
+            tail_from: None,
+            stable_starts: false,
+        },
+        // the very first message is rejected by the last of three plugins; two plugins stages in a row; a filter behind
+        Pipeline {
+            msgs: (0..16).map(|i| (1 + (i % 3) as u8, RHO + i * 1000, (i * 10) as u32, if i % 5 == 4 { 2u8 } else { 0 })).collect(),
+            stages: vec![StageSpec::Chain(vec![Plug::Mark, Plug::Mark, Plug::Reject(vec![0])], vec![0, 2]), StageSpec::Chain(vec![Plug::Reject(vec![1, 2, 15])], vec![]), StageSpec::Filter(vec![r#"{"type":1,"ecu":"EC02"}"#.to_string()])],
+            tail_from: None,
+            stable_starts: false,
+        },
+        // a data package without its FLST (recovered transfer), a package of another application, one that only looks like one
+        Pipeline {
+            msgs: vec![(1, RHO, 10, 0), (1, RHO + 1000, 20, 4), (1, RHO + 2000, 30, 6), (1, RHO + 3000, 40, 7), (1, RHO + 4000, 50, 8), (1, RHO + 5000, 60, 4), (1, RHO + 6000, 70, 5), (1, RHO + 7000, 80, 0)],
+            stages: vec![StageSpec::Chain(vec![Plug::Ft(false, true), Plug::Mark], vec![]), StageSpec::Sort(1, 0, false)],
             tail_from: None,
             stable_starts: false,
         },
@@ -2807,6 +3744,14 @@ fn main() {
     };
     for i in 0..n_tail_pipes {
         pipes.push(gen_loss_pipeline(&mut rng, i, max_msgs));
+    }
+    let n_chain_pipes = match a.tier.as_str() {
+        "quick" => 20,
+        "search" => 30,
+        _ => 200,
+    };
+    for i in 0..n_chain_pipes {
+        pipes.push(gen_chain_pipeline(&mut rng, i, max_msgs));
     }
     let n_reader_pipes = match a.tier.as_str() {
         "quick" => 12,
@@ -2925,7 +3870,8 @@ fn main() {
     let mut sjobs = vec![];
     for i in 0..n_shared {
         let (msgs, fam) = match i % 5 {
-            0 | 1 | 2 => (gen_double_reboot_end(&mut rng, max_msgs, i % 2 == 0), "double_reboot_end"),
+            1 => (gen_resume_untag(&mut rng), "resume_untag"),
+            0 | 2 => (gen_double_reboot_end(&mut rng, max_msgs, i % 2 == 0), "double_reboot_end"),
             3 => (from_lcgen(lcgen::gen_scenario(&mut rng)).into_iter().take(max_msgs as usize + 20).collect(), "lcgen_scenario"),
             _ => (from_lcgen(lcgen::gen_merge_template(&mut rng)), "lcgen_merge"),
         };
@@ -2973,9 +3919,9 @@ fn main() {
     }
     // incremental followers of the lifecycle table (refresh index protocol of remote.rs) at library level
     let n_incr = match a.tier.as_str() {
-        "quick" => 36usize,
-        "search" => 60,
-        _ => 360,
+        "quick" => 48usize,
+        "search" => 80,
+        _ => 480,
     };
     let mut ijobs = vec![];
     let icorpus = incr::corpus();
